@@ -2,6 +2,7 @@ package main
 
 import (
 	"fmt"
+	"runtime"
 	"sort"
 	"strconv"
 	"strings"
@@ -106,13 +107,71 @@ func c11exec(c *h.Ctx, cs *h.Case) {
 			}
 		}
 	}
+	// a message that was parked in the overlay comes back through the flush goroutine: it is a new thread
+	// for the scheduler (key m<k>f), which ends when its flush goroutine reaches cpm.done
+	parkedOnce := map[int]bool{}
+	flushGid := map[int]int64{}
+	flushEnded := map[int]bool{}
+	var overlayParked []int
+	keyFor := func(m int) string {
+		mu.Lock()
+		defer mu.Unlock()
+		if parkedOnce[m] {
+			return "m" + strconv.Itoa(m) + "f"
+		}
+		return "m" + strconv.Itoa(m)
+	}
 	onet.VerifSetHook(func(name string, key interface{}) {
 		if pm, ok := key.(*onet.ProtocolMsg); ok {
 			if m3, ok := pm.Msg.(*fix.M3); ok {
-				ctl.Reach("m"+strconv.Itoa(m3.V), name)
+				mu.Lock()
+				if parkedOnce[m3.V] {
+					flushGid[m3.V] = c11gid()
+				}
+				mu.Unlock()
+				ctl.Reach(keyFor(m3.V), name)
+			}
+			return
+		}
+		if name == "cpm.done" {
+			g := c11gid()
+			var ended []int
+			mu.Lock()
+			for m, fg := range flushGid {
+				if fg == g && !flushEnded[m] {
+					flushEnded[m] = true
+					ended = append(ended, m)
+				}
+			}
+			mu.Unlock()
+			for _, m := range ended {
+				ctl.Finished(keyFor(m))
 			}
 		}
 	})
+	// after an op that stores the tree: what was parked in the overlay has been flushed and stands at the
+	// hook point after its lookup
+	awaitFlushed := func() bool {
+		if len(overlayParked) == 0 || !strings.HasPrefix(ov.VerifTreeState(tree.ID), "present") {
+			return true
+		}
+		for dl := time.Now().Add(3 * time.Second); ov.VerifPendingCount(tree.ID) > 0; time.Sleep(200 * time.Microsecond) {
+			if time.Now().After(dl) {
+				cs.Impl = append(cs.Impl, "hang")
+				cs.Fail("parked-message-stuck", fmt.Sprintf("messages %v are parked and the tree has been stored, but they stay parked (the peer's answer will be refused now)", overlayParked))
+				return false
+			}
+		}
+		for _, m := range overlayParked {
+			if _, err := ctl.Await(keyFor(m)); err != nil {
+				cs.Impl = append(cs.Impl, "hang")
+				cs.Fail("parked-message-stuck", fmt.Sprintf("message %d was parked, the tree has been stored, but the message was not given to TransmitMsg again: %v", m, err))
+				return false
+			}
+		}
+		overlayParked = nil
+		return true
+	}
 	defer func() {
 		mu.Lock()
 		for k, g := range holding {
@@ -179,6 +238,9 @@ func c11exec(c *h.Ctx, cs *h.Case) {
 				cs.Fail("finished-instance-listed-again", fmt.Sprintf("instance %d was done and is %s now", k, ov.VerifInstanceState(tokens[k])))
 			}
 		}
+		if n := ov.VerifPendingCount(tree.ID); n > 0 && strings.HasPrefix(ts, "present") && len(overlayParked) > 0 {
+			cs.Fail("parked-message-stuck", fmt.Sprintf("%d message(s) are parked although the tree is stored (the peer's answer will be refused now)", n))
+		}
 		if len(live) > 0 && ts != "present" {
 			cs.Fail("tree-not-kept-while-used", fmt.Sprintf("instances %v are listed but the tree is %s", live, ts))
 		}
@@ -217,7 +279,7 @@ func c11exec(c *h.Ctx, cs *h.Case) {
 				panic(err)
 			}
 			key := "m" + strconv.Itoa(m)
-			before := handed
+			pend0 := ov.VerifPendingCount(tree.ID)
 			go func() {
 				ov.Process(env)
 				ctl.Finished(key)
@@ -231,13 +293,19 @@ func c11exec(c *h.Ctx, cs *h.Case) {
 			pc := "fin"
 			if loc == "tm.found" {
 				pc = "found"
+			} else if ov.VerifPendingCount(tree.ID) > pend0 {
+				// the tree is not there: the message waits in the overlay, the tree has been requested
+				pc = "parked"
+				mu.Lock()
+				parkedOnce[m] = true
+				mu.Unlock()
+				overlayParked = append(overlayParked, m)
 			}
-			_ = before
 			cs.Impl = append(cs.Impl, "pc="+pc+" "+obs())
 		case len(tk) == 4 && (tk[1] == "thread" || tk[1] == "threadc"):
 			m, _ := strconv.Atoi(tk[3])
 			k, _ := strconv.Atoi(tk[2])
-			key := "m" + strconv.Itoa(m)
+			key := keyFor(m)
 			// a thread inside a constructor holds transmitMux: nobody else enters the region
 			if w := ctl.Where(key); w != "tm.found" || msgTok[m] != k || len(inCtor) > 0 {
 				cs.Impl = append(cs.Impl, "disabled")
@@ -258,6 +326,9 @@ func c11exec(c *h.Ctx, cs *h.Case) {
 					return false
 				}
 				everUsed[k] = true
+				if !awaitFlushed() {
+					return false
+				}
 				pc := "fin"
 				if loc == "ctor" {
 					pc = "ctor"
@@ -279,6 +350,9 @@ func c11exec(c *h.Ctx, cs *h.Case) {
 				return false
 			}
 			everUsed[k] = true
+			if !awaitFlushed() {
+				return false
+			}
 			o := obs()
 			if wasDone {
 				mu.Lock()
@@ -397,6 +471,19 @@ func c11exec(c *h.Ctx, cs *h.Case) {
 			}
 			obs() // evaluates the oracle
 			cs.Impl = append(cs.Impl, "ok")
+		case len(tk) == 2 && tk[1] == "treeresp":
+			// the peer answers the tree request
+			before := ov.VerifTreeState(tree.ID)
+			ov.Process(&network.Envelope{ServerIdentity: cl.SI(0), MsgType: onet.ResponseTreeMsgID,
+				Msg: &onet.ResponseTree{TreeMarshal: tree.MakeTreeMarshal(), Roster: tree.Roster}})
+			if !awaitFlushed() {
+				return false
+			}
+			if strings.HasPrefix(before, "requested") {
+				cs.Impl = append(cs.Impl, "accepted "+obs())
+			} else {
+				cs.Impl = append(cs.Impl, "refused "+obs())
+			}
 		case len(tk) == 2 && tk[1] == "peerreq":
 			// a slow peer asks for the tree; the reply goes to server 0, whose processor counts it
 			before := atomic.LoadInt64(&replies)
@@ -431,6 +518,9 @@ func c11exec(c *h.Ctx, cs *h.Case) {
 			}
 			tokens[k] = pi.Token()
 			everUsed[k] = true
+			if !awaitFlushed() {
+				return false
+			}
 			cs.Impl = append(cs.Impl, obs())
 		default:
 			cs.Impl = append(cs.Impl, "bad-op")
@@ -444,6 +534,15 @@ func c11exec(c *h.Ctx, cs *h.Case) {
 	}
 	// closing: finish every parked arrival and every listed instance, then the grace period
 	// must end with the tree released (appended so the model sees the same ops)
+	if len(overlayParked) > 0 && ov.VerifPendingCount(tree.ID) > 0 {
+		cs.Ops = append(cs.Ops, "c11 treeresp")
+		if !doOp("c11 treeresp") {
+			return
+		}
+	}
+	if n := ov.VerifPendingCount(tree.ID); n > 0 && strings.HasPrefix(ov.VerifTreeState(tree.ID), "present") {
+		cs.Fail("parked-message-stuck", fmt.Sprintf("%d message(s) are parked although the tree is stored", n))
+	}
 	var tail []string
 	var keys []string
 	for k := range ctl.Parked() {
@@ -454,7 +553,7 @@ func c11exec(c *h.Ctx, cs *h.Case) {
 		tail = append(tail, fmt.Sprintf("c11 ctorret %d", k))
 	}
 	for _, key := range keys {
-		m, _ := strconv.Atoi(key[1:])
+		m, _ := strconv.Atoi(strings.TrimSuffix(key[1:], "f"))
 		if ctl.Where(key) == "ctor" {
 			continue
 		}
@@ -506,6 +605,18 @@ func c11exec(c *h.Ctx, cs *h.Case) {
 	cs.Outcome = fmt.Sprintf("instances=%d handed=%d", len(tokens), handed)
 }
 
+// c11gid returns the id of the calling goroutine.
+func c11gid() int64 {
+	var buf [64]byte
+	n := runtime.Stack(buf[:], false)
+	f := strings.Fields(string(buf[:n]))
+	if len(f) < 2 {
+		return -1
+	}
+	id, _ := strconv.ParseInt(f[1], 10, 64)
+	return id
+}
+
 func c11gen(c *h.Ctx, yield func(*h.Case)) {
 	r := c.Rng
 	defer c11storeGen(c, yield)
@@ -525,6 +636,15 @@ func c11gen(c *h.Ctx, yield func(*h.Case)) {
 	// gets the tree; after the last one the peer is served during the grace period only
 	yield(&h.Case{Class: "corpus-others-unaffected", Ops: []string{"c11 localstart 1", "c11 arrive 2 5", "c11 thread 2 5", "c11 donecb 1 0", "c11 peerreq", "c11 donecb 1 1",
 		"c11 done 1", "c11 peerreq", "c11 arrive 2 6", "c11 thread 2 6", "c11 arrive 1 7", "c11 thread 1 7", "c11 done 1", "c11 wait", "c11 peerreq", "c11 done 2", "c11 done 2", "c11 peerreq", "c11 wait", "c11 peerreq", "c11 done 2"}})
+	// the request path: a message misses the released tree (parked, tree requested); the peer's answer flushes it
+	yield(&h.Case{Class: "corpus-parked", Ops: []string{"c11 localstart 1", "c11 done 1", "c11 wait", "c11 arrive 2 5", "c11 peerreq", "c11 treeresp", "c11 treeresp", "c11 thread 2 5", "c11 peerreq", "c11 done 2", "c11 wait"}})
+	// … a late message for a finished token, after the tree was released: parked, answered, dropped, released again
+	yield(&h.Case{Class: "corpus-parked", Ops: []string{"c11 localstart 1", "c11 done 1", "c11 wait", "c11 arrive 1 5", "c11 treeresp", "c11 thread 1 5", "c11 wait"}})
+	// … a local start stores the tree while a message is parked
+	yield(&h.Case{Class: "corpus-parked", Ops: []string{"c11 localstart 1", "c11 done 1", "c11 wait", "c11 arrive 2 5", "c11 localstart 3", "c11 threadc 2 5", "c11 done 3", "c11 ctorret 2"}})
+	// … an arrival that looked the tree up before it was released stores it again while another message is parked
+	// (before /repo fafcac0 that message stayed parked for ever)
+	yield(&h.Case{Class: "corpus-parked", Ops: []string{"c11 localstart 1", "c11 arrive 2 5", "c11 done 1", "c11 wait", "c11 arrive 3 6", "c11 thread 2 5", "c11 treeresp", "c11 thread 3 6", "c11 done 2"}})
 	for n := 0; n < c.Pick(28, 400); n++ {
 		cs := &h.Case{Class: "random"}
 		m := 0
@@ -537,6 +657,29 @@ func c11gen(c *h.Ctx, yield func(*h.Case)) {
 		for j := 0; j < 4+r.Intn(14); j++ {
 			x := r.Intn(12)
 			switch {
+			case maybeAbsent && ctor == 0 && r.Intn(2) == 0:
+				// a message for a tree that may have been released: parked and the tree requested (at most one at a
+				// time: the flush goroutine hands parked messages over one after the other); then the peer's answer,
+				// or a local start, stores the tree again
+				m++
+				k := next
+				if len(known) > 0 && r.Intn(2) == 0 {
+					k = known[r.Intn(len(known))]
+				} else {
+					known = append(known, next)
+					next++
+				}
+				pending[m] = k
+				cs.Ops = append(cs.Ops, fmt.Sprintf("c11 arrive %d %d", k, m))
+				if r.Intn(3) > 0 {
+					cs.Ops = append(cs.Ops, "c11 treeresp")
+				} else {
+					cs.Ops = append(cs.Ops, fmt.Sprintf("c11 localstart %d", next))
+					known = append(known, next)
+					next++
+				}
+				maybeAbsent = false
+				c.Count("op=arrive-maybe-absent")
 			case maybeAbsent || x == 0:
 				cs.Ops = append(cs.Ops, fmt.Sprintf("c11 localstart %d", next))
 				known = append(known, next)
@@ -586,6 +729,8 @@ func c11gen(c *h.Ctx, yield func(*h.Case)) {
 				}
 			case x == 11 && r.Intn(2) == 0:
 				cs.Ops = append(cs.Ops, "c11 peerreq")
+			case x == 11 && r.Intn(3) == 0:
+				cs.Ops = append(cs.Ops, "c11 treeresp")
 			case waits < 2 && len(pending) == 0:
 				waits++
 				cs.Ops = append(cs.Ops, "c11 wait")
